@@ -161,6 +161,15 @@ def main():
     }
     coverage["differ_selftest"] = dict(cov_selftest, rule="up to 12 agreeing cases are re-compared against a deliberately corrupted model output; the differ must object")
     coverage.update(cov_extra)
+    try:
+        import tieaudit
+        ta = tieaudit.audit(pid, os.path.join(C.CACHE, "cases", pid))
+        coverage["tie_audit"] = ta
+        if ta["unreached_unexplained"]:
+            notes.append("tie audit: model definitions named in theorem statements but not reached by any evaluated case and not "
+                         "explained in coq/tie_allow.json: %s" % ", ".join(sorted(ta["unreached_unexplained"])))
+    except Exception as e:                       # the audit is a report about the machinery, never a verdict
+        coverage["tie_audit"] = {"error": repr(e)}
     C.write_evidence(pid, tier, seed, level, coverage, list(getattr(mod, "ASSUMPTIONS", [])),
                      time.time() - t0, len(violations))
     for n in notes:
